@@ -61,6 +61,10 @@ F: Dict[str, Dict[str, Any]] = {
     'main-mod':      {'__files__': {'pk/__main__.py': '"""Entry point."""\ndef main(): "L{main}"\nclass Cli:\n    def run(self): pass\n', 'pk/sub/__main__.py': '"""Sub entry."""\n'}},
     'under-names':   {'pk/a.py': '_u = 1\n"""u doc"""\ndef __halfdunder(): "h"\nclass __Mangled:\n    def pub(self): "p"\ndef __pub__(): "dunder"\nclass _U2:\n    class In:\n        "in"\n',
                       '__files__': {'pk/_privpkg/__init__.py': '"""Private package."""\n', 'pk/_privpkg/pubchild.py': '"""Public child of a private package."""\nclass PC:\n    "pc"\n'}},
+    'cycle-late-base': {'__files__': {'pk/cyc1.py': '"""c1"""\nfrom .cyc2 import Derived0\nclass Base0:\n    "base"\n    def bm(self): "L{Derived0}"\nclass Other0(Derived0):\n    "o"\n',
+                                      'pk/cyc2.py': '"""c2"""\nfrom .cyc1 import Base0\nclass Derived0(Base0):\n    "d"\n    def bm(self): pass\nclass Leaf0(Derived0):\n    "l"\n'}},
+    'same-short-names': {'__files__': {'pk/client.py': '"""cl"""\nclass Options:\n    "o"\nclass Extended(Options):\n    class Meta:\n        "m"\n    class Inner(Options):\n        "i"\n',
+                                       'pk/server.py': '"""sv"""\nclass Options:\n    "o"\nclass Extended(Options):\n    class Meta:\n        "m"\n    class Inner(Options):\n        "i"\ndef Meta(): "f"\n'}},
     'many-mods':     {'__files__': {f'pk/many/m{i:02d}.py': f'"""m{i}."""\n' for i in range(52)} | {'pk/many/__init__.py': '"""Many."""\n'}},
 }
 NAMES = list(F)
@@ -145,10 +149,18 @@ def crawl(out: str, system: Any, pages: Optional[Dict[str, Pg]] = None) -> List[
             if clause:
                 o = byurl.get(full)
                 cat = 'no-object' if o is None else ('hidden-target' if not o.isVisible else ('superseded-duplicate' if _dup.search(o.fullName()) else 'visible'))
+                if o is None and tf == 'classIndex.html' and frag in system.allobjects:
+                    # an entry of the class hierarchy: say whether the class hangs below a superseded duplicate definition (known finding) or not
+                    target = system.allobjects[frag]
+                    try:
+                        anc = [b for b in target.mro(True) if not isinstance(b, str)]
+                    except Exception:  # noqa
+                        anc = [target]
+                    cat = 'hierarchy-entry-below-superseded-class' if any(_dup.search(b.fullName()) for b in anc) else 'hierarchy-entry'
                 srcpage = 'summary' if f in SUMMARY_PAGES and f != 'index.html' else 'object-page'
                 producer = f'{tag}.{cls.split()[0] if cls else ""}'
                 hint = ''
-                if cat in ('no-object', 'visible'):
+                if cat in ('no-object', 'visible', 'hierarchy-entry', 'hierarchy-entry-below-superseded-class'):
                     hint = 'toc-entry' if frag.startswith('rst-toc-entry') else ('same-page-fragment' if path == '' else 'other-page')
                 sigs.append(((clause, producer, cat, srcpage, hint), f'{f}: {k}={u!r} -> {clause} ({cat})'))
     # all-documents url fields
